@@ -533,6 +533,8 @@ class Encoder:
                 hit = w.last_val != BV8(0)
                 w.s("inv%d" % val, z3.If(hit, N(i), w.g("inv%d" % val)))
                 w.s("status%d" % val, z3.If(z3.And(hit, w.g("status%d" % val) == BV8(0)), BV8(1), w.g("status%d" % val)))
+            elif key == "stale_install":       # region_cached: a regional copy of generation val is stored while the latest generation differs
+                w.s("recv_gone", z3.Or(w.g("recv_gone"), w.g("cur_latest") != BV8(val)))
             elif key == "stamp_hand":          # record which waker the thread holds at this step (res register of op val)
                 w.s("res%d" % val, w.g("hand%d" % t))
             elif key == "lastw":
